@@ -482,7 +482,12 @@ func ruleOptClosed(p *Program, r *Reporter) {
 			ast.Inspect(fd.Body, func(n ast.Node) bool {
 				if as, ok := n.(*ast.AssignStmt); ok {
 					for _, l := range as.Lhs {
-						if strings.Contains(exprStr(l), "bytecode") {
+						// an element of a program (code.Instructions), or the program itself
+						var x ast.Expr = l
+						if ie, ok := ast.Unparen(l).(*ast.IndexExpr); ok {
+							x = ie.X
+						}
+						if tv, ok := info.Types[x]; ok && isNamed(tv.Type, "code", "Instructions") {
 							writes = true
 						}
 					}
